@@ -393,6 +393,7 @@ def _lone_value(repo, rep):
             rew.append(src(n.value).replace(" ", ""))
     # compare structurally instead of textually
     okp = True
+    line_ends = set()
     for n in ast.walk(f.node):
         if isinstance(n, ast.Assign) and src(n.targets[0]) == "string":
             v = n.value
@@ -401,16 +402,31 @@ def _lone_value(repo, rep):
                     and src(v.func.value) in ("string", "expression"):
                 if v.func.attr == "strip" and not v.args:
                     good = True
-                if v.func.attr == "replace" and len(v.args) == 2 and all(
-                        isinstance(a, ast.Constant) for a in v.args) and \
-                        v.args[0].value == "\n" and v.args[1].value == " ":
-                    good = True
+            # a chain of .replace(<line end>, ' ') on the text
+            chain, cur = [], v
+            while isinstance(cur, ast.Call) and isinstance(
+                    cur.func, ast.Attribute) and cur.func.attr == "replace" \
+                    and len(cur.args) == 2 and all(
+                        isinstance(a, ast.Constant) for a in cur.args):
+                chain.append((cur.args[0].value, cur.args[1].value))
+                cur = cur.func.value
+            if chain and src(cur) in ("string", "expression") and all(
+                    a in ("\n", "\r") and b == " " for a, b in chain):
+                good = True
+                line_ends |= {a for a, b in chain}
             if isinstance(v, ast.Call) and src(v.func) == "substitute" and \
                     len(v.args) == 3 and src(v.args[0]) == "re_continuation":
                 good = True
             if not good:
                 okp = False
                 rew = [src(v)]
+    # (both line-end characters: an XML document keeps its carriage
+    # returns, and Python ends a line at either)
+    rep.check(line_ends == {"\n", "\r"}, "R20.4", f.qualname, "both "
+              "line-end characters of a multi-line expression are turned "
+              "into blanks (a document with CR LF line ends in XML mode is "
+              "not rejected)", construct="python-line-ends",
+              where=L.where(f), detail=str(sorted(line_ends)))
     rep.check(okp, "R20.4", f.qualname, "a python expression's text is only "
               "stripped, joined over line continuations and has its newlines "
               "turned into blanks before it is parsed (white space inside "
